@@ -66,7 +66,7 @@ def run(tier, only=None):
         recs = pool.map(_one, [(i, s, work) for i, s in enumerate(scs)], chunksize=2)
     tf = os.path.join(work, "trace.json")
     json.dump([{k: r[k] for k in ("sc", "raised", "exc", "calls", "returned", "returned_in_outdir", "result_is_containers",
-                                  "tmp_left", "pkg_dir_is_tmp")} for r in recs], open(tf, "w"))
+                                  "tmp_left", "pkg_dir_is_tmp", "e2e_inputs")} for r in recs], open(tf, "w"))
     val = common.run_tlc("LocalRunTrace", "LocalRunTrace.cfg", env={"TRACE_FILE": tf})
     if val.distinct != 2 * len(recs):
         raise common.MachineryError("trace validation visited %d states, expected %d" % (val.distinct, 2 * len(recs)))
